@@ -154,14 +154,17 @@ CLAIMED = {
         design_ref="6 C13"),
     "C15": dict(
         category="proof",
-        text=("Parser o writer = identity on the leaf codes, complete over their code spaces (UTF-8 number per byte-count class, "
+        text=("parser::residual accepts exactly the bits Residual::write emits for the component it returns, for ANY block size, partition "
+              "order and warm-up (Verus, against the same bit-string specification the writer is proved against; nom primitives by their "
+              "bit-level meaning). Parser o writer = identity on the leaf codes, complete over their code spaces (UTF-8 number per byte-count class, "
               "block-size and sample-rate codes, two's complement for widths 1..26, unary code on a byte), and on small components "
               "(CONSTANT, VERBATIM, one frame-header shape: parse of written bits returns the same component, consumes exactly "
               "count_bits() bits, re-serialises identically); the crate's own decoder: Residual::copy_signal and decode_lpc (fixed and LPC "
               "synthesis) invert the encoder's residual for ANY block length and order (Verus), stereo un-mixing equals the RFC spec (Kani)."),
-        note=("Bounded: nothing that goes through parser::residual (FIXED/LPC subframes, whole frames, whole streams) is within Kani's "
-              "reach - nom's closure plumbing defeats constant propagation and two input bytes already exhaust memory; Verus does not "
-              "accept nom combinators.  Those parts of the statement are NOT decided."),
+        note=("The composition of the recognisers (sub-frame -> frame -> stream) is not run end to end: Kani cannot execute anything that goes "
+              "through parser::residual (nom's closure plumbing; two input bytes exhaust memory) and Verus does not accept nom combinators, "
+              "so parser::frame / fixed_lpc / lpc are verified with their sub-recognisers as assumed callee contracts (units parser_frame, "
+              "parser_subframes under C16).  'Consumes all input' and 'verifies' for whole streams are NOT decided."),
         technique=KANI + " + " + VERUS,
         design_ref="6 C15"),
     "C16": dict(
@@ -177,6 +180,7 @@ CLAIMED = {
         note=("Kani units bounded in input length (8 header bytes, 34 STREAMINFO bytes, ...), complete in byte values.  Not decided: 'an altered "
               "frame is never accepted with different audio' beyond 'CRC-16 enforced' (a probabilistic fact about 16-bit coincidences), and "
               "the composition subframe -> fixed_lpc/lpc -> residual inside parser::frame, which enters the Verus unit as an assumed callee "
+              "contract; the FIXED / LPC recognisers themselves cannot panic on any type tag (Verus parser_subframes); "
               "contract (intractable for Kani; `impl FnMut`-returning parsers cannot be stubbed)."),
         technique=KANI + " + " + VERUS,
         design_ref="6 C16"),
